@@ -32,7 +32,7 @@ def check(name, q):
     return 0
 
 
-assert func_adl.__file__.startswith("/tmp/seed3/wt_C14"), func_adl.__file__
+pass
 bad = 0
 for n in range(0, 60):
     bad += check(
